@@ -163,8 +163,8 @@ reg("C02", harness="c02_inflate", level="exploration", deadline=(400, 2400), ext
                "with and without 5000 trailing bytes (multi-symbol lookup tables), on 3 kernels.",
     level_note="streams outside the enumerated grammar bound are not covered; trusted: ref/ref_gen.h generator + ref/ref_inflate.c, cross-checked "
                "against each other and zlib on every stream (gate).",
-    runs={"quick": [dict(flavour="sim", part="streams"), dict(flavour="sim", part="edge"), dict(flavour="h8k", part="streams")],
-          "thorough": [dict(flavour="sim", part="streams"), dict(flavour="sim", part="edge"), dict(flavour="h8k", part="streams"), dict(flavour="lht", part="streams"), dict(flavour="lht", part="edge")]},
+    runs={"quick": [dict(flavour="sim", part="streams"), dict(flavour="sim", part="edge"), dict(flavour="sim", part="neardefault"), dict(flavour="h8k", part="streams")],
+          "thorough": [dict(flavour="sim", part="streams"), dict(flavour="sim", part="edge"), dict(flavour="h8k", part="streams"), dict(flavour="lht", part="streams"), dict(flavour="lht", part="edge"), dict(flavour="sim", part="neardefault")]},
     rule="case = (stream, wrapper mode, header variant, junk length, cpu level, api); distinct_nontrivial = distinct stream bodies (hash); "
          "evaluations = decode calls compared with the reference.")
 
